@@ -1138,7 +1138,59 @@ fn sig_mutations_nonminimal(ctx: &mut Ctx, target: &pgp::packet::Signature, labe
     }
 }
 
+/// unlocked secret keys whose secret material starts with 0..3 zero octets (written as a shorter MPI;
+/// 1 in 256 generated keys): built through the public API from chosen material, then the usual
+/// oracles (announced length = written, parse back equal, canonical bytes)
+fn gen_secret_leading_zeros(ctx: &mut Ctx) {
+    use pgp::crypto::public_key::PublicKeyAlgorithm;
+    use pgp::packet::{PubKeyInner, PublicKey, SecretKey};
+    use pgp::types::{PlainSecretParams, PublicParams, SecretParams, Timestamp};
+    for zeros in 0..=3usize {
+        for variant in 0..3u8 {
+            let mut seed = [0u8; 32];
+            for (i, b) in seed.iter_mut().enumerate() {
+                *b = if i < zeros { 0 } else { (i as u8).wrapping_mul(29).wrapping_add(variant).wrapping_add(7) | 1 };
+            }
+            let built = guarded(|| -> Option<(SecretKey, &'static str)> {
+                let (plain, alg, name) = match variant {
+                    0 => {
+                        let key = pgp::crypto::ed25519::SecretKey::try_from_bytes(seed, pgp::crypto::ed25519::Mode::EdDSALegacy).ok()?;
+                        (PlainSecretParams::EdDSALegacy(pgp::crypto::eddsa_legacy::SecretKey::Ed25519(key)), PublicKeyAlgorithm::EdDSALegacy, "eddsa-legacy")
+                    }
+                    1 => {
+                        let sk = p256::SecretKey::from_slice(&seed).ok()?;
+                        (PlainSecretParams::ECDSA(pgp::crypto::ecdsa::SecretKey::P256(sk)), PublicKeyAlgorithm::ECDSA, "ecdsa-p256")
+                    }
+                    _ => {
+                        let key = pgp::crypto::ed25519::SecretKey::try_from_bytes(seed, pgp::crypto::ed25519::Mode::Ed25519).ok()?;
+                        (PlainSecretParams::Ed25519(key), PublicKeyAlgorithm::Ed25519, "ed25519-native")
+                    }
+                };
+                let public_params = PublicParams::try_from(&plain).ok()?;
+                let inner = PubKeyInner::new(KeyVersion::V4, alg, Timestamp::from_secs(1_700_000_000), None, public_params).ok()?;
+                let public = PublicKey::from_inner(inner).ok()?;
+                SecretKey::new(public, SecretParams::Plain(plain)).ok().map(|k| (k, name))
+            });
+            let Ok(Some((key, name))) = built else {
+                ctx.stat("api_secret_leading_zeros:cannot_build");
+                continue;
+            };
+            let p = Packet::SecretKey(key);
+            let out = serialize(&p);
+            let input = format!("secret key {name} with {zeros} leading zero octets in its secret material (SecretKey::new)");
+            oracles(ctx, &p, out.as_deref(), &[], false, &input, "_after_mutation");
+            if let Some(o) = &out {
+                // and through the parser: the packet the library wrote is accepted and canonical
+                let m = Msg::hexed(o.clone());
+                run_pkt(ctx, &m, false, true, "api_secret_leading_zeros");
+            }
+            ctx.stat(&format!("api_secret_leading_zeros:{name}:{zeros}"));
+        }
+    }
+}
+
 fn gen_api(ctx: &mut Ctx) {
+    gen_secret_leading_zeros(ctx);
     let mut rng = rand_chacha::ChaCha8Rng::seed_from_u64(ctx.seed ^ 0xC05);
     let mut plans: Vec<(KeyVersion, KeyType, Option<KeyType>, &str)> = vec![
         (KeyVersion::V4, KeyType::Ed25519Legacy, Some(KeyType::ECDH(ECCCurve::Curve25519Legacy)), "v4-ed25519legacy"),
